@@ -154,7 +154,9 @@ class YPPrologCompiler:
         self.cut_if_counter = 0
     def _debug(self,*args):
         if self.context.debug_generator:
-            self.context.outf.write('# ' + " ".join([str(a) for a in args]) + '\n')
+            # a message may contain line breaks (quoted atoms): keep every line inside a comment
+            msg = " ".join([str(a) for a in args])
+            self.context.outf.write(''.join('# ' + line + '\n' for line in msg.splitlines() or ['']))
     def push_bound_vars(self,variables):
         self.bound_vars.append(self.bound_vars[-1] + variables)
     def pop_bound_vars(self):
@@ -431,7 +433,8 @@ class YPPythonCodeGenerator:
     def generate(self,code):
         """code is a YPCode, output is a string"""
         if self.context.debug_filename:
-            s = f'# from {self.context.current_source_file}\n#\n\n'
+            filename = ' '.join(str(self.context.current_source_file).splitlines())
+            s = f'# from {filename}\n#\n\n'
         else:
             s = '\n'
         return _output_header + s + code.generate(self)
